@@ -12,7 +12,7 @@ import (
 // treeOpts: the fragment the behavioural properties are judged on (no composition, no additional
 // properties, no defaults, no formats: those have their own properties and known-finding classes).
 func treeOpts() sgen.Opts {
-	return sgen.Opts{Defs: true, Nullable: true, Enums: true, MaxDepth: 3, NoNestedLimits: true, NoFormatDefs: true, NoAliasDefs: true}
+	return sgen.Opts{Defs: true, Nullable: true, Enums: true, Maps: true, MaxDepth: 3, NoNestedLimits: true, NoFormatDefs: true, NoAliasDefs: true}
 }
 
 func certCount(c *engine.Ctx, res []*core.PResult, key string) {
@@ -54,7 +54,7 @@ func randomTreeCases(c *engine.Ctx, stream string, n int, o sgen.Opts, build fun
 func init() {
 	// ------------------------------------------------------------------ C04
 	register("C04", func(c *engine.Ctx) {
-		c.Rule = "systematic: one object with 1..3 required keys at root / nested / array element / definition position, every non-empty subset of the required keys removed, plus present-null for nullable and absent optional; random: structured schemas of the tree fragment (objects, arrays, primitives, enums, nullable, $defs/$ref, depth <= 3), a fully populated valid document, and every single deletion of a required key at every object position. Verdict must equal the reference. Distinct = distinct (stream, verdicts, document shape)."
+		c.Rule = "systematic: one object with 1..3 required keys at root / nested / array element / definition position, every non-empty subset of the required keys removed, plus present-null for nullable and absent optional; systematic over the KIND of the required property (28 kinds: scalars, bounded, nullable, arrays, structs, maps by value type, bare object, enums, formats, any, allOf, anyOf; inline and through a definition) at each of those positions, present / missing; random: structured schemas of the tree fragment (objects, arrays, primitives, enums, nullable, $defs/$ref, depth <= 3), a fully populated valid document, and every single deletion of a required key at every object position. Verdict must equal the reference. Distinct = distinct (stream, verdicts, document shape)."
 		c.Proofs([]string{"GJS.Props.C04"}, []string{
 			"GJS.Proofs.fails_not_accepted", "GJS.Props.C04.rejects_missing", "GJS.Props.C04.cert_missing_le", "GJS.Props.C04.cert_rejects_missing",
 		})
@@ -65,7 +65,7 @@ func init() {
 		}
 		full := M{"a": 1, "b": "x", "c": true, "o": "y"}
 		wraps := map[string]func(M) (M, func(any) any){
-			"root":   func(s M) (M, func(any) any) { return s, func(v any) any { return v } },
+			"root": func(s M) (M, func(any) any) { return s, func(v any) any { return v } },
 			"nested": func(s M) (M, func(any) any) {
 				return M{"type": "object", "properties": M{"n": s}, "required": []any{"n"}}, func(v any) any { return M{"n": v} }
 			},
@@ -107,6 +107,48 @@ func init() {
 				delete(do, "o") // optional absent
 				docs = append(docs, mk(do))
 				pcs = append(pcs, baseCase("c04-systematic", schema, docs, wname, fmt.Sprintf("req=%d", len(req))))
+			}
+		}
+		// systematic over the KIND of the required property (the generator chooses field type, default handling
+		// and pointer wrapping by kind): each kind, required, at every wrap position; documents: present / missing
+		reqKinds := map[string]struct {
+			schema M
+			val    any
+		}{
+			"integer": {M{"type": "integer"}, 3}, "number": {M{"type": "number"}, 1.5}, "string": {M{"type": "string"}, "s"}, "boolean": {M{"type": "boolean"}, false},
+			"int-bounded": {M{"type": "integer", "minimum": 1}, 3}, "str-len": {M{"type": "string", "minLength": 1}, "s"},
+			"nullable-int": {M{"type": []any{"integer", "null"}}, 2}, "array": {M{"type": "array", "items": M{"type": "integer"}}, []any{1}},
+			"array-of-arrays": {M{"type": "array", "items": M{"type": "array", "items": M{"type": "string"}}}, []any{[]any{"x"}}},
+			"struct":     {M{"type": "object", "properties": M{"p": M{"type": "integer"}}}, M{"p": 1}},
+			"struct-req": {M{"type": "object", "properties": M{"p": M{"type": "integer"}}, "required": []any{"p"}}, M{"p": 1}},
+			"map-int":    {M{"type": "object", "additionalProperties": M{"type": "integer"}}, M{"k": 1}}, "map-string": {M{"type": "object", "additionalProperties": M{"type": "string"}}, M{"k": "v"}},
+			"map-number": {M{"type": "object", "additionalProperties": M{"type": "number"}}, M{}}, "map-bool": {M{"type": "object", "additionalProperties": M{"type": "boolean"}}, M{"k": true}},
+			"map-array":  {M{"type": "object", "additionalProperties": M{"type": "array", "items": M{"type": "string"}}}, M{"k": []any{"a"}}},
+			"map-struct": {M{"type": "object", "additionalProperties": M{"type": "object", "properties": M{"p": M{"type": "integer"}}}}, M{"k": M{"p": 1}}},
+			"map-any":    {M{"type": "object", "additionalProperties": true}, M{"k": 1}}, "object-bare": {M{"type": "object"}, M{"k": 1}},
+			"struct-addl": {M{"type": "object", "properties": M{"p": M{"type": "integer"}}, "additionalProperties": M{"type": "string"}}, M{"p": 1, "q": "x"}},
+			"enum-str":    {M{"type": "string", "enum": []any{"a", "b"}}, "a"}, "enum-int": {M{"type": "integer", "enum": []any{1, 2}}, 2}, "enum-untyped": {M{"enum": []any{"a", 1}}, 1},
+			"fmt-date": {M{"type": "string", "format": "date"}, "2020-01-02"}, "fmt-ipv4": {M{"type": "string", "format": "ipv4"}, "1.2.3.4"},
+			"any": {M{}, 1}, "allOf": {M{"allOf": []any{M{"type": "object", "properties": M{"p": M{"type": "integer"}}}, M{"type": "object", "properties": M{"q": M{"type": "string"}}}}}, M{"p": 1, "q": "x"}},
+			"anyOf": {M{"anyOf": []any{M{"type": "object", "properties": M{"p": M{"type": "integer"}}, "required": []any{"p"}}, M{"type": "object", "properties": M{"q": M{"type": "string"}}, "required": []any{"q"}}}}, M{"p": 1}},
+		}
+		for _, kname := range core.SortedKeys(reqKinds) {
+			k := reqKinds[kname]
+			for _, wname := range core.SortedKeys(wraps) {
+				for _, viaDef := range []bool{false, true} {
+					in := M{"type": "object", "properties": M{"k": sgen.DeepCopy(k.schema), "o": M{"type": "string"}}, "required": []any{"k"}}
+					schema, mk := wraps[wname](in)
+					if viaDef {
+						// a format-typed string as a definition is the listed finding K-named-format-definition (C02)
+						if _, has := schema["$defs"]; has || strings.HasPrefix(kname, "fmt-") {
+							continue
+						}
+						in["properties"].(M)["k"] = M{"$ref": "#/$defs/K"}
+						schema["$defs"] = M{"K": sgen.DeepCopy(k.schema)}
+					}
+					docs := []any{mk(M{"k": k.val, "o": "y"}), mk(M{"o": "y"}), mk(M{})}
+					pcs = append(pcs, baseCase("c04-kinds", schema, docs, kname, wname, fmt.Sprint(viaDef)))
+				}
 			}
 		}
 		// random
